@@ -198,6 +198,146 @@ set_option maxRecDepth 100000 in
 example : (RouterG.matchReq (towerTOps exT) (RouterG.build (towerTOps exT) [exR3]) exQ3).map (·.id)
     = ["r3"] := by decide +kernel
 
+/-! ### The nine header kinds as quantified statements (reviewer's C01-2)
+
+`HCond.eval` is shared by the layered model and by `sat`; what a kind MEANS is stated here over the raw header list
+of the request: `HeaderOf E q name x` – the request carries a header whose name equals `name` after lower-casing both,
+with value `x` (a name may occur several times: every occurrence counts).  Positive kinds are ∃-statements, the two
+negated kinds are ∀-statements – hence TRUE when the header is absent (`negated_kinds_hold_when_absent`). -/
+
+/-- the request has a header named `name` (names compared lower-cased) with value `x` -/
+def HeaderOf (E : Env) (q : Req) (name x : String) : Prop :=
+  ∃ n, (n, x) ∈ q.headers ∧ E.lower n = E.lower name
+
+theorem mem_headerValues (E : Env) (q : Req) (name x : String) :
+    x ∈ q.headerValues E name ↔ HeaderOf E q name x := by
+  simp only [Req.headerValues, List.mem_map, List.mem_filter, beq_iff_eq, HeaderOf]
+  constructor
+  · rintro ⟨⟨n, x'⟩, ⟨hm, hn⟩, rfl⟩; exact ⟨n, hm, hn⟩
+  · rintro ⟨n, hm, hn⟩; exact ⟨(n, x), ⟨hm, hn⟩, rfl⟩
+
+theorem headerExists_iff (E : Env) (q : Req) (name : String) :
+    q.headerExists E name = true ↔ ∃ x, HeaderOf E q name x := by
+  simp only [Req.headerExists, List.any_eq_true, beq_iff_eq, HeaderOf]
+  constructor
+  · rintro ⟨⟨n, x⟩, hm, hn⟩; exact ⟨x, n, hm, hn⟩
+  · rintro ⟨x, n, hm, hn⟩; exact ⟨(n, x), hm, hn⟩
+
+theorem lcIsPrefix_iff (n h : List Char) : lcIsPrefix n h = true ↔ ∃ t, h = n ++ t := by
+  induction n generalizing h with
+  | nil => simp [lcIsPrefix]
+  | cons a as ih =>
+    cases h with
+    | nil => simp [lcIsPrefix]
+    | cons b bs =>
+      simp only [lcIsPrefix, Bool.and_eq_true, beq_iff_eq, ih, List.cons_append, List.cons.injEq]
+      constructor
+      · rintro ⟨rfl, t, rfl⟩; exact ⟨t, rfl, rfl⟩
+      · rintro ⟨t, rfl, rfl⟩; exact ⟨rfl, t, rfl⟩
+
+theorem lcIsInfix_iff (n h : List Char) : lcIsInfix n h = true ↔ ∃ a b, h = a ++ n ++ b := by
+  induction h with
+  | nil =>
+    simp only [lcIsInfix, List.isEmpty_iff]
+    constructor
+    · rintro rfl; exact ⟨[], [], rfl⟩
+    · rintro ⟨a, b, h⟩
+      have := congrArg List.length h
+      simp at this
+      exact List.eq_nil_of_length_eq_zero (by omega)
+  | cons c cs ih =>
+    simp only [lcIsInfix, Bool.or_eq_true, lcIsPrefix_iff, ih]
+    constructor
+    · rintro (⟨t, ht⟩ | ⟨a, b, hab⟩)
+      · exact ⟨[], t, by simpa using ht⟩
+      · exact ⟨c :: a, b, by simp [hab]⟩
+    · rintro ⟨a, b, hab⟩
+      cases a with
+      | nil => exact Or.inl ⟨b, by simpa using hab⟩
+      | cons a0 a' =>
+        simp only [List.cons_append, List.cons.injEq] at hab
+        exact Or.inr ⟨a', b, hab.2⟩
+
+/-- `str::starts_with`, `str::ends_with`, `str::contains` on the characters of the two strings. -/
+theorem strStartsWith_iff (x v : String) : strStartsWith x v = true ↔ ∃ t, x.toList = v.toList ++ t :=
+  lcIsPrefix_iff _ _
+
+theorem strEndsWith_iff (x v : String) : strEndsWith x v = true ↔ ∃ t, x.toList = t ++ v.toList := by
+  simp only [strEndsWith, lcIsPrefix_iff]
+  constructor
+  · rintro ⟨t, ht⟩
+    refine ⟨t.reverse, ?_⟩
+    have := congrArg List.reverse ht
+    simpa using this
+  · rintro ⟨t, ht⟩
+    exact ⟨t.reverse, by rw [ht]; simp⟩
+
+theorem strContains_iff (x v : String) : strContains x v = true ↔ ∃ a b, x.toList = a ++ v.toList ++ b :=
+  lcIsInfix_iff _ _
+
+/-- **The nine kinds.**  For every request (any header list, names in any case, a name occurring any number of times)
+and every condition `⟨name, kind⟩`: the header test of the model is the quantified statement on the right. -/
+theorem header_kinds_spec (E : Env) (q : Req) (name : String) :
+    ((HCond.mk name .isDefined).eval E q = true ↔ ∃ x, HeaderOf E q name x) ∧
+    ((HCond.mk name .isNotDefined).eval E q = true ↔ ¬ ∃ x, HeaderOf E q name x) ∧
+    (∀ v, (HCond.mk name (.isEquals v)).eval E q = true ↔ ∃ x, HeaderOf E q name x ∧ x = v) ∧
+    (∀ v, (HCond.mk name (.isNotEqualTo v)).eval E q = true ↔ ∀ x, HeaderOf E q name x → x ≠ v) ∧
+    (∀ v, (HCond.mk name (.contains v)).eval E q = true ↔
+      ∃ x, HeaderOf E q name x ∧ ∃ a b, x.toList = a ++ v.toList ++ b) ∧
+    (∀ v, (HCond.mk name (.doesNotContain v)).eval E q = true ↔
+      ∀ x, HeaderOf E q name x → ¬ ∃ a b, x.toList = a ++ v.toList ++ b) ∧
+    (∀ v, (HCond.mk name (.endsWith v)).eval E q = true ↔
+      ∃ x, HeaderOf E q name x ∧ ∃ a, x.toList = a ++ v.toList) ∧
+    (∀ v, (HCond.mk name (.startsWith v)).eval E q = true ↔
+      ∃ x, HeaderOf E q name x ∧ ∃ b, x.toList = v.toList ++ b) ∧
+    (∀ p, (HCond.mk name (.matchRegex p)).eval E q = true ↔ ∃ x, HeaderOf E q name x ∧ E.headerRegex p x = true) := by
+  refine ⟨?_, ?_, ?_, ?_, ?_, ?_, ?_, ?_, ?_⟩
+  · simp only [HCond.eval]; exact headerExists_iff E q name
+  · simp only [HCond.eval, Bool.not_eq_true', ← headerExists_iff]
+    cases q.headerExists E name <;> simp
+  · intro v; simp only [HCond.eval, List.any_eq_true, mem_headerValues, beq_iff_eq]
+  · intro v; simp only [HCond.eval, List.all_eq_true, mem_headerValues, bne_iff_ne, ne_eq]
+  · intro v; simp only [HCond.eval, List.any_eq_true, mem_headerValues, strContains_iff]
+  · intro v
+    simp only [HCond.eval, List.all_eq_true, mem_headerValues, Bool.not_eq_true', ← strContains_iff]
+    constructor
+    · intro h x hx; rw [h x hx]; simp
+    · intro h x hx; have := h x hx; simpa using this
+  · intro v; simp only [HCond.eval, List.any_eq_true, mem_headerValues, strEndsWith_iff]
+  · intro v; simp only [HCond.eval, List.any_eq_true, mem_headerValues, strStartsWith_iff]
+  · intro p; simp only [HCond.eval, List.any_eq_true, mem_headerValues]
+
+/-- The two negated kinds hold when the request does not carry the header at all; the seven others do not. -/
+theorem negated_kinds_hold_when_absent (E : Env) (q : Req) (name v : String)
+    (habs : ¬ ∃ x, HeaderOf E q name x) :
+    (HCond.mk name (.isNotEqualTo v)).eval E q = true ∧ (HCond.mk name (.doesNotContain v)).eval E q = true ∧
+    (HCond.mk name .isNotDefined).eval E q = true ∧
+    (HCond.mk name .isDefined).eval E q = false ∧ (HCond.mk name (.isEquals v)).eval E q = false ∧
+    (HCond.mk name (.contains v)).eval E q = false ∧ (HCond.mk name (.endsWith v)).eval E q = false ∧
+    (HCond.mk name (.startsWith v)).eval E q = false ∧
+    (∀ p, (HCond.mk name (.matchRegex p)).eval E q = false) := by
+  obtain ⟨h1, h2, h3, h4, h5, h6, h7, h8, h9⟩ := header_kinds_spec E q name
+  have hno : ∀ x, ¬ HeaderOf E q name x := fun x hx => habs ⟨x, hx⟩
+  refine ⟨(h4 v).2 (fun x hx => absurd hx (hno x)), (h6 v).2 (fun x hx => absurd hx (hno x)), h2.2 habs,
+    ?_, ?_, ?_, ?_, ?_, ?_⟩
+  · rw [Bool.eq_false_iff]; intro h; exact habs (h1.1 h)
+  · rw [Bool.eq_false_iff]; intro h; obtain ⟨x, hx, _⟩ := (h3 v).1 h; exact hno x hx
+  · rw [Bool.eq_false_iff]; intro h; obtain ⟨x, hx, _⟩ := (h5 v).1 h; exact hno x hx
+  · rw [Bool.eq_false_iff]; intro h; obtain ⟨x, hx, _⟩ := (h7 v).1 h; exact hno x hx
+  · rw [Bool.eq_false_iff]; intro h; obtain ⟨x, hx, _⟩ := (h8 v).1 h; exact hno x hx
+  · intro p; rw [Bool.eq_false_iff]; intro h; obtain ⟨x, hx, _⟩ := (h9 p).1 h; exact hno x hx
+
+/-- The header trigger of a route: EVERY header condition of the rule holds, each read with the rule's header name
+lower-cased (`HeaderMatcher::insert`) – so, for an idempotent `lower`, the name as written in the rule and the names
+as sent by the client are compared case-insensitively, whatever `ignore_header_case` says (that flag is about values). -/
+theorem headersOk_spec (E : Env) (r : Route) (q : Req) :
+    headersOk E r q = true ↔ ∀ h ∈ r.headers, (HCond.mk (E.lower h.name) h.kind).eval E q = true := by
+  simp [headersOk, RouteHeader.toCond]
+
+theorem headerOf_lower_name (E : Env) (hidem : ∀ s, E.lower (E.lower s) = E.lower s) (q : Req) (name x : String) :
+    HeaderOf E q (E.lower name) x ↔ HeaderOf E q name x := by
+  simp [HeaderOf, hidem]
+
 /-! ### The case flags (reviewer's C01-3)
 
 `sat` has no case flag: the flags act when rule and request are READ (`Rule::host/path_and_query(ignore_case)`,
